@@ -283,6 +283,22 @@ func init() {
 				}
 			}
 		}
+		// maps whose keys print alike (1 and "1" in a map keyed by interface{}): once per ENTRY
+		{
+			extra := map[string]interface{}{"mik": map[interface{}]string{1: "int", "1": "string", "2": "other", true: "bool", "true": "strue"}, "mi64": map[interface{}]int{int64(1): 10, 1: 11, 1.0: 12}}
+			for _, t := range []struct {
+				it   string
+				want []string
+			}{{"mik", []string{"[int]", "[string]", "[other]", "[bool]", "[strue]"}}, {"mi64", []string{"[10]", "[11]", "[12]"}}} {
+				tm := "<%= for (k, v) in " + t.it + " { %>[<%= v %>]<% } %>"
+				o := runRenderExtra(RCase{Tmpl: tm}, extra)
+				e.rep.Evaluations++
+				e.Count("keys-printing-alike")
+				if o.Class != "OK" || !matchPermutation(o.Out, t.want) {
+					e.Violate("c08-map", fmt.Sprintf("%s: rendered %q (%s), not a permutation of the per-entry outputs %q", tm, o.Out, o.Class, t.want), map[string]interface{}{"tmpl": tm, "observed": o})
+				}
+			}
+		}
 		fixed := []lbody{
 			{{Kind: "val"}, {Kind: "text", S: ","}},
 			{{Kind: "key"}, {Kind: "text", S: "="}, {Kind: "val"}, {Kind: "text", S: ";"}},
